@@ -99,20 +99,21 @@ def bounds(tier):
                 "1..4 over a 7-entry alphabet"
                 if thorough else
                 "all sequences of 1..2 arguments over a 13-entry alphabet and "
-                "1..3 over an 8-entry alphabet"),
+                "1..3 over a 5-entry alphabet"),
         "single": "every scalar/field/field-vector/stencil/operator form (7 "
                   "spaces x 5 accesses x real/integer x vector 1/3 x 6 stencil "
                   "types, operators over 5x5 space pairs x 4 accesses) alone and "
                   "before/after each of "
-                  + ("3 companions" if thorough else "1 companion (after it)"),
-        "funcs": "meta_funcs: every assignment {absent, basis, diff_basis, both"
-                 + (", both reversed" if thorough else "") + "} per used space "
+                  + ("3 companions" if thorough else "1 companion"),
+        "funcs": "meta_funcs: every assignment {absent, basis, "
+                 + ("diff_basis, both, both reversed" if thorough
+                    else "basis+diff_basis") + "} per used space "
                  "(listed in both orders) x gh_shape in {xyoz, face, edge, "
                  "evaluator" + (", the 10 ordered pairs with evaluator or xyoz" if thorough
                                 else ", 2 ordered pairs")
                  + "} x gh_evaluator_targets {absent, each space, "
                  + ("all ordered pairs" if thorough else "one pair") + "} on "
-                 + ("5" if thorough else "3") + " base kernels",
+                 + ("5" if thorough else "2") + " base kernels",
         "props": "meta_mesh {absent, adjacent_face} x ordered lists of up to "
                  + ("3" if thorough else "2") + " of the 6 reference-element "
                  "properties (x 3 shapes for lists of <= 1)",
